@@ -76,6 +76,7 @@ def run(ctx):
         rule="random CVK/PAN(0..19)/expiry/service code + the recorded legacy witness + inputs found by directed search "
              "whose final cipher block has fewer than 3 decimal nibbles (second decimalisation pass) + domain edges; "
              "oracle = independent CVV from single-block OpenSSL ECB; non-trivial = distinct successful calls")
+    fw.inplace_history(res, rng, [c for c in cases if check_impl(c[0], c[1], core.impl_call(c[0], c[1])) is None][:200], check_impl)
     res["distribution"]["second_pass_inputs"] = len(rare) + 1
     res["distribution"]["corpus_inputs_0_or_1_decimal_nibbles"] = len(corpus)
     return res
